@@ -305,6 +305,20 @@ def check(ctx: Ctx):
         c05.check_semantic_dtype(ctx)
     except (Undecided, AnchorMissing) as e:
         ctx.undecided("R05.6", None, None, "R05.6:check_semantic_dtype", f"{type(e).__name__}: {e}")
+    # the global binary metrics are part of "every reported metric": the foregrounds they are
+    # computed on must not depend on the label values (binarise before any narrowing cast, R13.1)
+    from . import c13
+
+    try:
+        c13.check_global(ctx)
+    except (Undecided, AnchorMissing) as e:
+        ctx.undecided("R13.1", None, None, "R13.1:check", f"{type(e).__name__}: {e}")
+    # results of later evaluations (another group, a flipped copy, the exchanged pair, a second
+    # threshold) are only meaningful if no step writes into the caller's arrays (R15.8)
+    from . import c15 as _c15
+    from . import c03 as _c03
+
+    _c03._guarded(ctx, "R15.8", _c15.check_param_aliasing)
 
 
 _F = "panoptica/_functionals.py"
